@@ -535,6 +535,8 @@ def _rep(a, b):
 
 
 WITNESSES = [
+    ("reveal command copies the input when the plate looks revealed", "batchie.cli.reveal_plate",
+     _rep("    advanced_screen = reveal_plates(screen, args.plate_id)\n", "    if len(args.plate_id) == 0:\n        import shutil\n        shutil.copyfile(args.screen, args.output)\n        return\n    advanced_screen = reveal_plates(screen, args.plate_id)\n"), ["R10"]),
     ("reveal mask without OR", "batchie.retrospective", _rep("observation_mask=screen.observation_mask | reveal_mask,", "observation_mask=reveal_mask,"), ["R2"]),
     ("uniformity raise removed", "batchie.data",
      _rep("                raise ValueError(\n                    f\"Plate {plate_name} has a mixture of observed and not observed outcomes.\"\n                )", "                pass"), ["R1"]),
